@@ -28,8 +28,12 @@ Consume(e) == l <= Len(TraceLog) /\ Ev.ev = e /\ l' = l + 1
 \* C02: the guaranteed window, and what can never open
 MustOpen(d, k) == k \in opened[d] \/ (reg[d] # -1 /\ reg[d] < k /\ k <= reg[d] + W + Cardinality(opened[d]))
 MustFail(d, k) == k \notin opened[d] /\ (reg[d] = -1 \/ k <= reg[d])
-\* C14: reference window around the last counter seen
-InWindow(d, k) == last[d] # -1 /\ last[d] - N <= k /\ k < last[d] + N
+\* C14: reference window around the last counter seen.  The statement leaves the exact edges to the
+\* implementation ([last-N, last+N) today): the monitor demands success strictly inside, refusal clearly
+\* outside (or when no reference was ever computed), and accepts either outcome on the two edge counters
+\* of each side - a window moved by one is not an alarm, a window that does not follow the last counter is.
+Inside(d, k) == last[d] # -1 /\ last[d] - N + 1 <= k /\ k <= last[d] + N - 2
+Outside(d, k) == last[d] = -1 \/ k < last[d] - N - 1 \/ k > last[d] + N
 Faithful == Ev.same /\ Ev.pdev /\ Ev.pk = Ev.k
 
 MReset == /\ Consume("reset")
@@ -51,8 +55,8 @@ MOpen == /\ Consume("open")
          /\ opened' = IF Ev.ok THEN [opened EXCEPT ![Ev.d] = @ \cup {Ev.k}] ELSE opened
          /\ UNCHANGED <<sent, reg, last>>
 MPush == /\ Consume("push")
-         /\ ((MustOpen(Ev.d, Ev.k) /\ InWindow(Ev.d, Ev.k)) => Ev.ok)
-         /\ ((MustFail(Ev.d, Ev.k) \/ ~InWindow(Ev.d, Ev.k)) => ~Ev.ok)
+         /\ ((MustOpen(Ev.d, Ev.k) /\ Inside(Ev.d, Ev.k)) => Ev.ok)
+         /\ ((MustFail(Ev.d, Ev.k) \/ Outside(Ev.d, Ev.k)) => ~Ev.ok)
          /\ (Ev.ok => Faithful /\ Ev.pgroup /\ (Ev.already <=> Ev.k \in opened[Ev.d]))
          /\ last' = IF Ev.ok THEN [last EXCEPT ![Ev.d] = Ev.k] ELSE last
          /\ UNCHANGED <<sent, reg, opened>>
